@@ -303,18 +303,58 @@ def _width_of_guard(test: ast.AST, bw, negated=False) -> set[int] | None:
     return None
 
 
+def _class_universe(fn_node, bw) -> set[int] | None:
+    """Widths a class admits at all: `if dtype.bitwidth not in (2, 4): raise` in its __init__."""
+    cls = getattr(fn_node, "_parent", None)
+    if not isinstance(cls, ast.ClassDef):
+        return None
+    for s in cls.body:
+        if isinstance(s, ast.FunctionDef) and s.name == "__init__":
+            for n in ast.walk(s):
+                if isinstance(n, ast.If) and any(isinstance(x, ast.Raise) for x in n.body) and isinstance(n.test, ast.Compare) \
+                        and len(n.test.ops) == 1 and isinstance(n.test.ops[0], ast.NotIn) and norm(n.test.left).endswith(".bitwidth") \
+                        and isinstance(n.test.comparators[0], (ast.Tuple, ast.Set, ast.List)):
+                    return {e.value for e in n.test.comparators[0].elts if isinstance(e, ast.Constant)}
+    return None
+
+
 def _controlling_widths(node: ast.AST, bw) -> set[int] | None:
-    """Intersection of widths admitted by the if-branches the node sits in (true branches only)."""
+    """Widths the dtype can have where `node` runs: intersection of the enclosing if-guards (true branches), minus the
+    widths handled by earlier `if <width guard>: return/raise` statements of the same block when the class bounds
+    the admissible widths in its constructor."""
     out = None
+    excluded: set[int] = set()
     child = node
     p = getattr(node, "_parent", None)
-    while p is not None and not isinstance(p, (ast.FunctionDef, ast.AsyncFunctionDef)):
+    fn = None
+    while p is not None:
+        if isinstance(p, (ast.FunctionDef, ast.AsyncFunctionDef)):
+            fn = p
+        body = None
+        for fld in ("body", "orelse", "finalbody"):
+            b = getattr(p, fld, None)
+            if isinstance(b, list) and child in b:
+                body = b
+        if body is not None:
+            for s in body[: body.index(child)]:
+                if isinstance(s, ast.If) and not s.orelse and s.body and isinstance(s.body[-1], (ast.Return, ast.Raise)):
+                    w = _width_of_guard(s.test, bw)
+                    if w is not None:
+                        excluded |= w
+        if fn is not None:
+            break
         if isinstance(p, ast.If) and child in p.body:
             w = _width_of_guard(p.test, bw)
             if w is not None:
                 out = w if out is None else out & w
         child = p
         p = getattr(p, "_parent", None)
+    if out is None and excluded and fn is not None:
+        uni = _class_universe(fn, bw)
+        if uni is not None:
+            out = set(uni)
+    if out is not None:
+        out = out - excluded
     return out
 
 
@@ -336,30 +376,65 @@ def rule_r3(ctx):
                       how="widths admitted by the enclosing if-guards (bitwidth == k / membership in a DataType set)")
 
 
+_R4_EXAMPLE = """
+def _load(self):
+    if self.dtype in {DataType.INT4, DataType.UINT4, DataType.FLOAT4E2M1, DataType.INT2, DataType.UINT2}:
+        count = self.size // 2 + self.size % 2
+    if self.dtype.bitwidth == 4:
+        good = self.size // 2
+"""
+
+
+def _scan_r4(fn_node, bw):
+    """[(node, admitted widths, literal factor, ok)] for element-count arithmetic under a sub-byte guard."""
+    from ..index import own_nodes as _own
+
+    out = []
+    for node in _own(fn_node):
+        if not (isinstance(node, ast.BinOp) and isinstance(node.op, (ast.FloorDiv, ast.Mod, ast.Mult))):
+            continue
+        if not (isinstance(node.right, ast.Constant) and node.right.value in (2, 4)):
+            continue
+        if "size" not in norm(node.left) and "numel" not in norm(node.left) and "count" not in norm(node.left):
+            continue
+        w = _controlling_widths(node, bw)
+        if w is None or not any(x < 8 for x in w):
+            continue
+        per_byte = {8 // x for x in w if x < 8}
+        out.append((node, w, node.right.value, per_byte == {node.right.value}))
+    return out
+
+
 def rule_r4(ctx):
     bw = ctx._shared["bw"]
-    n = 0
+    # the rule's expected number of instances on a correct tree is zero: keep a built-in positive example so the
+    # detector is exercised on every run
+    from ..index import set_parents
+
+    ex = ast.parse(_R4_EXAMPLE)
+    set_parents(ex)
+    got = _scan_r4(ex.body[0], bw)
+    ctx.require(len(got) == 3 and [ok for _, _, _, ok in got].count(False) == 2,
+                "R4 detector does not recognise its built-in positive example")
+    ctx.ob("R4", "built-in positive example: mixed 2/4-bit guard with `size // 2` is detected, homogeneous guard accepted", True,
+           how="detector self-check on an in-memory snippet")
     for f in ctx.repo.all_funcs():
         if f.module.name == "onnx_ir._type_casting":
             continue
-        for node in own_nodes(f.node):
-            if not (isinstance(node, ast.BinOp) and isinstance(node.op, (ast.FloorDiv, ast.Mod, ast.Mult))):
-                continue
-            if not (isinstance(node.right, ast.Constant) and node.right.value in (2, 4)):
-                continue
-            if "size" not in norm(node.left) and "numel" not in norm(node.left) and "count" not in norm(node.left):
-                continue
-            w = _controlling_widths(node, bw)
-            if w is None or not any(x < 8 for x in w):
-                continue
-            n += 1
+        for node, w, k, ok in _scan_r4(f.node, bw):
             per_byte = {8 // x for x in w if x < 8}
-            ok = per_byte == {node.right.value}
             ctx.check("R4", f"{f.key}: {norm(node)} under widths {sorted(w)}", ok, f, node,
-                      f"element count is scaled by {node.right.value} under a guard admitting {sorted(w)}-bit types "
+                      f"element count is scaled by {k} under a guard admitting {sorted(w)}-bit types "
                       f"({sorted(per_byte)} elements per byte): wrong byte count for some of them",
                       how="elements-per-byte of every admitted width equals the literal factor")
-    ctx.require(n >= 1, "no packing-factor arithmetic found under a sub-byte guard")
+    # sub-byte readers that size their buffer from nbytes are width-agnostic: record them
+    et = ctx.repo.func("onnx_ir._core:ExternalTensor._load")
+    uses_nbytes = any(isinstance(n, ast.Assign) and norm(n.targets[0]) == "count" and "nbytes" in norm(n.value) for n in ast.walk(et.node))
+    counts = [n for n in ast.walk(et.node) if isinstance(n, ast.Assign) and norm(n.targets[0]) == "count"]
+    ctx.check("R4", "ExternalTensor._load sizes the packed read from nbytes or a width-homogeneous expression",
+              uses_nbytes or all(ok for _, _, _, ok in _scan_r4(et.node, bw)) and bool(counts), et, et.node,
+              "the packed byte count of an external sub-byte tensor is not derived from its bit width",
+              how="`count` assignment under the sub-byte guard", nontrivial=True)
 
 
 def _field_sets(f: FuncInfo):
